@@ -150,7 +150,7 @@ func (v Vars) render() map[string]string {
     step("gen")
     emit("gen/g.txt", "g:" + slurp("src/a.txt") + ":" + str(helper(0)) + ":" + str(LATE))
     emit("out/gen.side", "side")
-target(name="gen", function=_gen, sources=["src/a.txt", "__DEEP__/x/config.h", "__DEEP__/y/config.h"], generates=["gen/g.txt"]__ALWAYS__)
+target(name="gen", function=_gen, sources=["src/a.txt", "__DEEP__/x/config.h", "__DEEP__/y/config.h"], generates=["out/gen.side", "gen/g.txt"]__ALWAYS__)
 def _mid(t):
     step("mid")
     emit("out/mid", "mid:" + slurp("gen/g.txt") + ":" + listing("dir") + ":" + str(G[1]) + ":" + str(closure(1)) + ":" + "".join(ORD.keys()))
@@ -354,7 +354,7 @@ func (v Vars) closure(t string) []string {
 // declared outputs whose presence is an input of the target
 func declaredOutputs(t string) []string {
 	if t == tGen {
-		return []string{"gen/g.txt"}
+		return []string{"out/gen.side", "gen/g.txt"} // the one nobody consumes is listed first
 	}
 	return nil
 }
